@@ -41,6 +41,7 @@ func c09Gen(rng *verifsim.RNG, idx int, tier string) *Plan {
 		p.Nodes[0].Config.Interfaces[0].MaxInterval = sp([]string{"4s", "600s"}[rng.Intn(2)])
 	}
 	p.Nodes[0].Config.Interfaces[0].Verbose = rng.Bool(0.3)
+	p.Nodes[0].Metrics = []string{"prom", "mem"}[rng.Intn(2)]
 	peerRA := &RASpec{Hop: 64, Lifetime: 1800, Opts: []OptSpec{{Kind: "prefix", Prefix: "2001:db8:5::/64", OnLink: true, Auto: true, Valid: 86400, Pref: 14400}}}
 
 	if idx < c09Enum(tier) {
@@ -259,7 +260,7 @@ func c09Oracle(info *runInfo, res *verifsim.Result) {
 		delivered := 0
 		for i := range h.ev {
 			e := &h.ev[i]
-			if strings.HasPrefix(e.K, "act.") && e.If == ifn && e.Err == "" && (e.K == "act.rs" || e.K == "act.ra" || e.K == "act.ns" || e.K == "act.na") && (stopSeq == 0 || e.Seq < stopSeq) {
+			if strings.HasPrefix(e.K, "act.") && e.If == ifn && e.Err == "" && (e.K == "act.rs" || e.K == "act.ra" || e.K == "act.ns" || e.K == "act.na") && (stopSeq == 0 || e.Seq < stopSeq) && h.deliveredAlive(e) {
 				delivered++
 			}
 		}
